@@ -80,8 +80,12 @@ class LocalDateTime {
             : epochSeconds / 86400;
 
         // Avoid % operator, because it's slow on an 8-bit process and because
-        // epochSeconds could be negative.
-        acetime_t seconds = epochSeconds - 86400 * days;
+        // epochSeconds could be negative. The product is formed in unsigned
+        // arithmetic because (86400 * days) is below INT32_MIN for the first
+        // (partial) day of the 32-bit range; the difference is always in
+        // [0, 86399].
+        acetime_t seconds = (acetime_t) ((uint32_t) epochSeconds
+            - (uint32_t) 86400 * (uint32_t) days);
         ld = LocalDate::forEpochDays(days);
         lt = LocalTime::forSeconds(seconds);
       }
